@@ -237,6 +237,29 @@ def run_case(case, model):
                     break
             outs[0].recipients.pop()
             del outs[0].headers['X-Probe']
+    # ---- a policy that fails: whatever it raises must come out of _run_policies (nothing half-processed is handed on as a result)
+    if chain and not hits and mismatch is None and (len(rcpts) + len(chain) + case['hdrs']) % 4 == 0:
+        from slimta.policy import QueuePolicy
+        for exc_type in (IndexError, KeyError, ValueError):
+            class Raiser(QueuePolicy):
+                def apply(self, envelope):
+                    raise exc_type('policy failed')
+            q3 = build_queue(chain)
+            pos = (len(rcpts) + case['hdrs']) % (len(chain) + 1)
+            q3.queue_policies.insert(pos, Raiser())
+            env3 = Envelope('sender@example.com', list(rcpts))
+            env3.parse(HDRSETS[case['hdrs']] + b'\r\n' + body)
+            env3.timestamp, env3.receiver, env3.client = env.timestamp, env.receiver, dict(env.client)
+            try:
+                r3 = q3._run_policies(env3)
+                hits.append(hit('c16.policy-exception-swallowed.' + exc_type.__name__, 'a queue policy raised and _run_policies returned envelopes all the same',
+                                observed={'position': pos, 'outputs': [list(o.recipients)[:4] for o in r3][:4]}, expected=exc_type.__name__))
+                break
+            except exc_type:
+                pass
+            except Exception as e:
+                hits.append(hit('c16.raises.' + type(e).__name__, 'a failing policy made _run_policies raise something else', observed=repr(e)))
+                break
     # ---- the next message: same recipients through the same policy objects, after the outputs of this one were rewritten in place
     # (what a later policy or the relay may do): it must come out exactly as this one did
     if chain and not hits and mismatch is None:
